@@ -13,7 +13,8 @@ EXPLANATION = ("Necessary shape conditions decided on all paths of the close mac
                "gracefully_end_all_streams hand their own pending_items_count to end_all_streams; (R06.4) is_channel_open is is_any_stream_running in all 11 channels and "
                "cancel_stream clears the very flag keep_stream_running reads; (R06.5) the running-stream count drops only when a MutinyStream object is dropped: "
                "drop_resources is called only by Drop for MutinyStream (a stream that gave its id back when it answered end-of-stream would let close return while pipeline "
-               "futures still hold events).")
+               "futures still hold events); (R06.6) the helpers the close machinery stands on: wake_all_streams / is_any_stream_running visit every id of 0..MAX_STREAMS, "
+               "keep_stream_running(id) reads its own flag, and every channel's pending_items_count is its container's length query (Multi: the maximum over the live listeners).")
 ASSUMPTIONS = ["timing is not decided", "'fully processed by the pipeline' relies on the executor dropping the stream only after the pipeline finished: futures' for_each_concurrent drops "
                "the source stream once it is exhausted while item futures may still be in flight -- that gap lives inside the futures crate and is recorded as an undetected limitation"]
 
@@ -173,6 +174,41 @@ def check(ctx):
     rd = [a for a in guards.accesses(kb, SM, {"keep_streams_running"})]
     wr = [a for a in guards.accesses(cb, SM, {"keep_streams_running"}) if a["kind"] == "w"]
     ctx.ob("R06.4", f"{SM}|cancel-clears-the-flag-poll-reads", bool(rd) and bool(wr), f"{cb.f['file']}:{cb.f['line']}", "cancel_stream writes keep_streams_running[..], keep_stream_running reads the same array")
+    # ------------------------------------------------------------------ R06.6 helpers the close machinery stands on
+    for fn, callee in (("wake_all_streams", "wake_stream"), ("is_any_stream_running", "keep_stream_running")):
+        kf = SM + "::" + fn
+        fb = Body(fx.fn(kf)); fd = D.Dag(fb)
+        rng = None
+        for b in fb.reachable:
+            for st in fb.stmts(b):
+                if st[0] == "A" and st[2][0] == "Agg" and st[2][1][0] == "Adt" and st[2][1][1].endswith("ops::Range"):
+                    rng = [strip_casts(fd.expr(o)) for o in st[2][2]]
+        cs = [(b, c) for (b, c) in fb.calls if (c.get("resolved") or c.get("f")) == SM + "::" + callee]
+        ok = rng is not None and rng[0] == ("const", 0) and rng[1] == ("gconst", "MAX_STREAMS") and len(cs) == 1 and util.in_loop(fb, cs[0][0])
+        if ok:
+            h = [h for h, bl in fb.loops.items() if cs[0][0] in bl][0]
+            lo, hi = util.count_per_iteration(fb, h, lambda b: b == cs[0][0])
+            arg = show(fd.expr(cs[0][1]["args"][1]))
+            ok = (lo, hi) == (1, 1) and "next" in arg
+        ctx.ob("R06.6", f"{kf}|visits-every-stream-id", ok, f"{fb.f['file']}:{fb.f['line']}", f"{fn} visits every id of 0..MAX_STREAMS (range {[show(x) for x in rng] if rng else None}) and calls {callee}(id) once per id")
+    kb2 = Body(fx.fn(SM + "::keep_stream_running")); kd2 = D.Dag(kb2)
+    idx = [(b, c) for (b, c) in kb2.calls if c.get("fname") in ("get_unchecked", "index")]
+    ok = len(idx) == 1 and strip_casts(kd2.expr(idx[0][1]["args"][1]))[:2] == ("param", 2) and "keep_streams_running" in str(kd2.expr(idx[0][1]["args"][0]))
+    ctx.ob("R06.6", f"{SM}::keep_stream_running|reads-its-own-flag", ok, f"{kb2.f['file']}:{kb2.f['line']}", "keep_stream_running(id) reads keep_streams_running[id]")
+    for name, path in R.CHANNELS.items():
+        kp = f"{path} as {R.T_COMMON}::pending_items_count"
+        pb = Body(fx.fn(kp)); pd = D.Dag(pb)
+        r = pd.local(0)
+        fam = [f for f in fx.fns if (f.get("owner_fn") or f["key"]) == kp]
+        names = [blk["term"][1].get("fname") for f in fam for blk in f["blocks"] if blk["term"][0] == "Call"]
+        lenq = [n for n in names if n in ("available_elements_count", "remaining_elements_count", "len")]
+        if name.startswith("uni."):
+            ok = len(lenq) == 1 and strip_casts(r)[0] == "call" and strip_casts(r)[1].split("::")[-1] in ("available_elements_count", "len")
+            det = f"answers `{show(r)[:80]}`; required: the container's own length query"
+        else:
+            ok = len(lenq) == 1 and "max" in names and "min" not in names and "used_streams" in names
+            det = f"calls {sorted(set(names))}; required: the MAXIMUM of the per-listener length queries over the live-listener list (close waits for the slowest listener)"
+        ctx.ob("R06.6", f"{kp}|is-the-real-backlog", ok, f"{pb.f['file']}:{pb.f['line']}", det)
     # ------------------------------------------------------------------ R06.5 id given back only by Drop
     for f in fx.fns:
         body = None
@@ -184,4 +220,4 @@ def check(ctx):
             if c.get("fname") == "drop_resources" and (c.get("trait") == R.T_CONS or R.T_CONS in (c.get("resolved") or c.get("f") or "")):
                 ok = f.get("impl_self") == STREAM and f.get("impl_trait") == "std::ops::Drop"
                 ctx.ob("R06.5", f"{f['key']}|calls|drop_resources", ok, body.loc(b), "the running-stream count drops only when the stream object itself is dropped (Drop for MutinyStream): the executor drops it after the pipeline finished")
-    ctx.floor("R06.1", 12); ctx.floor("R06.3", 13); ctx.floor("R06.4", 12); ctx.floor("R06.5", 1)
+    ctx.floor("R06.1", 12); ctx.floor("R06.3", 13); ctx.floor("R06.4", 12); ctx.floor("R06.5", 1); ctx.floor("R06.6", 14)
